@@ -351,34 +351,38 @@ const (
 
 type InheritP1Claims struct{ psatoken.P1Claims }
 
-type inheritP1Profile struct{}
+// ONE Go type implements both derived profiles (a parametrised IProfile, as
+// a vendor with a family of profiles would write it): the name a profile
+// reports, not the Go type of its implementation, identifies it.
+type inheritProfile struct{ base Prof }
 
-func (inheritP1Profile) GetName() string { return InhP1Name }
-
-// the factory leaves the optional profile claim unset
-func (inheritP1Profile) GetClaims() psatoken.IClaims {
-	return &InheritP1Claims{psatoken.P1Claims{
-		SwComponents:     &psatoken.SwComponents[*psatoken.SwComponent]{},
-		CanonicalProfile: InhP1Name,
-	}}
+func (p inheritProfile) GetName() string {
+	if p.base == P1 {
+		return InhP1Name
+	}
+	return InhP2OID
 }
 
-type InheritP2Claims struct{ psatoken.P2Claims }
-
-type inheritP2Profile struct{}
-
-func (inheritP2Profile) GetName() string { return InhP2OID }
-func (inheritP2Profile) GetClaims() psatoken.IClaims {
-	p := eat.Profile{}
-	if err := p.Set(InhP2OID); err != nil {
+// the profile-1 factory leaves the optional profile claim unset
+func (p inheritProfile) GetClaims() psatoken.IClaims {
+	if p.base == P1 {
+		return &InheritP1Claims{psatoken.P1Claims{
+			SwComponents:     &psatoken.SwComponents[*psatoken.SwComponent]{},
+			CanonicalProfile: InhP1Name,
+		}}
+	}
+	ep := eat.Profile{}
+	if err := ep.Set(InhP2OID); err != nil {
 		panic(err)
 	}
 	return &InheritP2Claims{psatoken.P2Claims{
-		Profile:          &p,
+		Profile:          &ep,
 		SwComponents:     &psatoken.SwComponents[*psatoken.SwComponent]{},
 		CanonicalProfile: InhP2OID,
 	}}
 }
+
+type InheritP2Claims struct{ psatoken.P2Claims }
 
 // ---- a claims type with TWO sibling embedded structs: a group of vendor
 // claims that has no profile field, declared BEFORE the embedded profile-2
